@@ -184,14 +184,48 @@ theorem keys_mark (w : Want) (cs : List Client) : keys (mark w cs) = keys cs := 
 theorem wany_iff (w : Want) (k : Key) : w.any (fun x => x.1 == k) = true ↔ k ∈ wkeys w := by
   simp only [List.any_eq_true, beq_iff_eq, wkeys, List.mem_map]
 
-theorem scan_eq (w : Want) (m : Mgr) (h : m.stopping = false) : scan w m = { m with clients := startNew w (mark w m.clients) } := by
+theorem wkeys_startable (bad : List Key) (w : Want) (k : Key) : k ∈ wkeys (startable bad w) ↔ k ∈ wkeys w ∧ k ∉ bad := by
+  simp only [wkeys, startable, List.mem_map, List.mem_filter, Bool.not_eq_true', List.contains_eq_mem, decide_eq_false_iff_not]
+  constructor
+  · rintro ⟨x, ⟨hx, hb⟩, rfl⟩
+    exact ⟨⟨x, hx, rfl⟩, hb⟩
+  · rintro ⟨⟨x, hx, rfl⟩, hb⟩
+    exact ⟨x, ⟨hx, hb⟩, rfl⟩
+
+theorem lookupW_startable (bad : List Key) : ∀ (w : Want) (k : Key) (ch : List Bytes),
+    lookupW (startable bad w) k = some ch → lookupW w k = some ch := by
+  intro w
+  induction w with
+  | nil => intro k ch h; simp [startable, lookupW] at h
+  | cons x w ih =>
+    intro k ch h
+    obtain ⟨k', c'⟩ := x
+    simp only [startable, List.filter_cons] at h
+    by_cases hb : bad.contains k' = true
+    · simp only [hb, Bool.not_true, Bool.false_eq_true, if_false] at h
+      have hne : k' ≠ k := by
+        intro he
+        subst he
+        have := lookupW_mem _ _ _ h
+        have := (wkeys_startable bad w k').mp this
+        exact this.2 (by simpa using hb)
+      simp only [lookupW, hne, if_false]
+      exact ih k ch h
+    · simp only [hb, Bool.not_false, if_true, lookupW] at h ⊢
+      by_cases he : k' = k
+      · simpa [he] using h
+      · simp only [he, if_false] at h ⊢
+        exact ih k ch h
+
+theorem scan_eq (bad : List Key) (w : Want) (m : Mgr) (h : m.stopping = false) :
+    scan bad w m = { m with clients := startNew (startable bad w) (mark w m.clients) } := by
   simp [scan, h, mark]
 
-/-- the state a fixed want list `w` drives the manager to: every wanted placement has a client, and
-    every client of an unwanted placement has been told to stop -/
-structure Toward (w : Want) (m : Mgr) : Prop where
+/-- the state a fixed want list `w` drives the manager to: every wanted placement whose client can be constructed
+    has a client, and every client of an unwanted placement has been told to stop -/
+structure Toward (bad : List Key) (w : Want) (m : Mgr) : Prop where
   nodup : (keys m.clients).Nodup
-  have_all : ∀ k ∈ wkeys w, k ∈ keys m.clients
+  have_all : ∀ k ∈ wkeys w, k ∉ bad → k ∈ keys m.clients
   extra_stopping : ∀ c ∈ m.clients, c.key ∉ wkeys w → c.stopping = true
   live : m.stopping = false ∧ m.done = false
 
@@ -199,14 +233,14 @@ structure Toward (w : Want) (m : Mgr) : Prop where
 def Fresh (w : Want) (m : Mgr) : Prop :=
   ∀ c ∈ m.clients, c.stopping = false → ∀ ch, lookupW w c.key = some ch → c.children = ch
 
-theorem scan_toward (w : Want) (m : Mgr) (hnd : (keys m.clients).Nodup) (hl : m.stopping = false ∧ m.done = false) :
-    Toward w (scan w m) := by
-  rw [scan_eq w m hl.1]
+theorem scan_toward (bad : List Key) (w : Want) (m : Mgr) (hnd : (keys m.clients).Nodup) (hl : m.stopping = false ∧ m.done = false) :
+    Toward bad w (scan bad w m) := by
+  rw [scan_eq bad w m hl.1]
   have hk := keys_mark w m.clients
-  obtain ⟨i1, i2, i3, _⟩ := startNew_spec w (mark w m.clients) (by rw [hk]; exact hnd)
+  obtain ⟨i1, i2, i3, _⟩ := startNew_spec (startable bad w) (mark w m.clients) (by rw [hk]; exact hnd)
   refine ⟨i1, ?_, ?_, hl⟩
-  · intro k hkw
-    exact (i2 k).mpr (Or.inr hkw)
+  · intro k hkw hnb
+    exact (i2 k).mpr (Or.inr ((wkeys_startable bad w k).mpr ⟨hkw, hnb⟩))
   · intro c hc hnw
     rcases i3 c hc with h1 | ⟨_, _, h3⟩
     · simp only [mark, List.mem_map] at h1
@@ -216,13 +250,13 @@ theorem scan_toward (w : Want) (m : Mgr) (hnd : (keys m.clients).Nodup) (hl : m.
         exact absurd ((wany_iff w c0.key).mp hw) hnw
       · simp [hw]
     · -- a freshly started client is wanted
-      exact absurd (lookupW_mem w c.key _ h3) hnw
+      exact absurd (lookupW_mem w c.key _ (lookupW_startable bad w _ _ h3)) hnw
 
-theorem scan_fresh (w : Want) (m : Mgr) (hnd : (keys m.clients).Nodup) (hl : m.stopping = false) (hf : Fresh w m) :
-    Fresh w (scan w m) := by
-  rw [scan_eq w m hl]
+theorem scan_fresh (bad : List Key) (w : Want) (m : Mgr) (hnd : (keys m.clients).Nodup) (hl : m.stopping = false) (hf : Fresh w m) :
+    Fresh w (scan bad w m) := by
+  rw [scan_eq bad w m hl]
   have hk := keys_mark w m.clients
-  obtain ⟨_, _, i3, _⟩ := startNew_spec w (mark w m.clients) (by rw [hk]; exact hnd)
+  obtain ⟨_, _, i3, _⟩ := startNew_spec (startable bad w) (mark w m.clients) (by rw [hk]; exact hnd)
   intro c hc hns ch hch
   rcases i3 c hc with h1 | ⟨_, _, h3⟩
   · simp only [mark, List.mem_map] at h1
@@ -231,14 +265,27 @@ theorem scan_fresh (w : Want) (m : Mgr) (hnd : (keys m.clients).Nodup) (hl : m.s
     · simp only [hw, if_true] at hns hch ⊢
       exact hf c0 hc0 hns ch hch
     · simp [hw] at hns
-  · rw [h3] at hch
+  · rw [lookupW_startable bad w _ _ h3] at hch
     injection hch
+
+/-- a scan never constructs a client for a placement whose construction fails -/
+theorem scan_keys_sub (bad : List Key) (w : Want) (m : Mgr) (hnd : (keys m.clients).Nodup) (k : Key)
+    (h : k ∈ keys (scan bad w m).clients) : k ∈ keys m.clients ∨ (k ∈ wkeys w ∧ k ∉ bad) := by
+  cases hs : m.stopping with
+  | true => simp only [scan, hs, if_true] at h; exact Or.inl h
+  | false =>
+    rw [scan_eq bad w m hs] at h
+    have hk := keys_mark w m.clients
+    obtain ⟨_, i2, _, _⟩ := startNew_spec (startable bad w) (mark w m.clients) (by rw [hk]; exact hnd)
+    rcases (i2 k).mp h with h1 | h1
+    · rw [hk] at h1; exact Or.inl h1
+    · exact Or.inr ((wkeys_startable bad w k).mp h1)
 
 theorem keys_filter_nodup (cs : List Client) (p : Client → Bool) (h : (keys cs).Nodup) : (keys (cs.filter p)).Nodup := by
   unfold keys at *
   exact List.Nodup.sublist (List.Sublist.map _ (List.filter_sublist)) h
 
-theorem exited_toward (w : Want) (m : Mgr) (k : Key) (h : Toward w m) : Toward w (step m (.exited k w)) := by
+theorem exited_toward (bad : List Key) (w : Want) (m : Mgr) (k : Key) (h : Toward bad w m) : Toward bad w (step m (.exited k w bad)) := by
   simp only [step]
   split
   · simp only [h.live.1, Bool.false_eq_true, if_false]
@@ -247,7 +294,7 @@ theorem exited_toward (w : Want) (m : Mgr) (k : Key) (h : Toward w m) : Toward w
     · exact ⟨rfl, h.live.2⟩
   · exact h
 
-theorem exited_fresh (w : Want) (m : Mgr) (k : Key) (h : Toward w m) (hf : Fresh w m) : Fresh w (step m (.exited k w)) := by
+theorem exited_fresh (bad : List Key) (w : Want) (m : Mgr) (k : Key) (h : Toward bad w m) (hf : Fresh w m) : Fresh w (step m (.exited k w bad)) := by
   simp only [step]
   split
   · simp only [h.live.1, Bool.false_eq_true, if_false]
@@ -259,32 +306,32 @@ theorem exited_fresh (w : Want) (m : Mgr) (k : Key) (h : Toward w m) (hf : Fresh
       exact hf c hc.1
   · exact hf
 
-theorem exits_toward (w : Want) (ks : List Key) : ∀ (m : Mgr), Toward w m → Fresh w m →
-    Toward w (run m (ks.map (fun k => Event.exited k w))) ∧ Fresh w (run m (ks.map (fun k => Event.exited k w))) := by
+theorem exits_toward (bad : List Key) (w : Want) (ks : List Key) : ∀ (m : Mgr), Toward bad w m → Fresh w m →
+    Toward bad w (run m (ks.map (fun k => Event.exited k w bad))) ∧ Fresh w (run m (ks.map (fun k => Event.exited k w bad))) := by
   induction ks with
   | nil => intro m h hf; exact ⟨h, hf⟩
   | cons k ks ih =>
     intro m h hf
     simp only [List.map_cons, run, List.foldl_cons]
-    exact ih _ (exited_toward w m k h) (exited_fresh w m k h hf)
+    exact ih _ (exited_toward bad w m k h) (exited_fresh bad w m k h hf)
 
 /-! ### any event keeps one client per placement -/
 
-theorem scan_nodup (w : Want) (m : Mgr) (h : (keys m.clients).Nodup) : (keys (scan w m).clients).Nodup := by
+theorem scan_nodup (bad : List Key) (w : Want) (m : Mgr) (h : (keys m.clients).Nodup) : (keys (scan bad w m).clients).Nodup := by
   cases hs : m.stopping with
   | true => simp [scan, hs]; exact h
   | false =>
-    rw [scan_eq w m hs]
+    rw [scan_eq bad w m hs]
     have hk := keys_mark w m.clients
-    exact (startNew_spec w (mark w m.clients) (by rw [hk]; exact h)).1
+    exact (startNew_spec (startable bad w) (mark w m.clients) (by rw [hk]; exact h)).1
 
 theorem step_nodup (m : Mgr) (e : Event) (h : (keys m.clients).Nodup) : (keys (step m e).clients).Nodup := by
   cases e with
-  | scan w =>
+  | scan w bad =>
     simp only [step]
     split
     · exact h
-    · exact scan_nodup w m h
+    · exact scan_nodup bad w m h
   | trigger k =>
     simp only [step]
     have : keys (m.clients.map (fun c => if c.key == k then { c with stopping := true } else c)) = keys m.clients := by
@@ -294,12 +341,12 @@ theorem step_nodup (m : Mgr) (e : Event) (h : (keys m.clients).Nodup) : (keys (s
       simp only [Function.comp_apply]
       split <;> rfl
     rw [this]; exact h
-  | exited k w =>
+  | exited k w bad =>
     simp only [step]
     split
     · split
       · exact keys_filter_nodup _ _ h
-      · exact scan_nodup w _ (keys_filter_nodup _ _ h)
+      · exact scan_nodup bad w _ (keys_filter_nodup _ _ h)
     · exact h
   | stop =>
     simp only [step]
